@@ -32,11 +32,12 @@ CONSTANTS Chans,       \* subset of {"workflow", "action", "reusable", "config"}
           Tags,        \* explicit tags used by the generator (subset of AllTags \ {"none"})
           Depths,      \* nesting depths
           LongReps,    \* repetition counts of the long scalars
+          CollTags,    \* tags put on collections of the decoder channels (subset of AllCollTags)
           RecogAll,    \* recogniser-derived expression texts at every scalar position (FALSE: first scalar of each domain)
           ExprLen      \* `${{`-fragments: all sequences over ExprAlpha up to this length (at one position per domain)
 
 AllChans == {"workflow", "action", "reusable", "config"}
-AllMutKinds == {"scalar", "seq", "map", "alias", "anchored", "tagged", "merge", "key", "nest", "long", "expr", "root", "recog"}
+AllMutKinds == {"scalar", "seq", "map", "alias", "anchored", "tagged", "merge", "key", "nest", "long", "expr", "root", "recog", "cycle", "multi"}
 AllTags == {"none", "!!str", "!!int", "!!float", "!!bool", "!!null", "!!binary", "!!timestamp", "!verif"}
 Outcomes == {"clean", "diag", "fatal"}
 \* what the PROPERTY allows on every channel, and what the DESIGN produces per channel (narrower; a difference
@@ -136,8 +137,20 @@ ConfigWorkflow ==
        <<"jobs", M(<< <<"j", M(<< <<"runs-on", Q(<<S("self-hosted"), S("linux-arm")>>)>>,
           <<"steps", Q(<< M(<< <<"run", S("echo ${{ vars.DEPLOY_ENV }}")>> >>) >>)>> >>)>> >>)>> >>)
 
+\* a called workflow WITHOUT workflow_call: the search for the event runs to the end of `on`
+NotReusable ==
+  M(<< <<"on", M(<< <<"push", M(<< <<"branches", Q(<<S("main")>>)>> >>)>>, <<"workflow_dispatch", Null>> >>)>>,
+       <<"jobs", M(<< <<"j", M(<< <<"runs-on", S("ubuntu-latest")>>,
+                                  <<"steps", Q(<< M(<< <<"run", S("echo j")>> >>) >>)>> >>)>> >>)>> >>)
+
+\* the same with one diagnostic, so that the `ignore` patterns of the configuration are applied to something
+ConfigDirty ==
+  M(<< <<"on", S("push")>>,
+       <<"jobs", M(<< <<"j", M(<< <<"runs-on", Q(<<S("self-hosted"), S("linux-arm")>>)>>,
+          <<"steps", Q(<< M(<< <<"run", S("echo ${{ nosuchcontext.x }}")>> >>) >>)>> >>)>> >>)>> >>)
+
 ChanDocs(c) == CASE c = "workflow" -> Bases
-                 [] c = "reusable" -> <<B2>>
+                 [] c = "reusable" -> <<B2, NotReusable>>
                  [] c = "action" -> <<A1, A2, A3>>
                  [] c = "config" -> <<C1>>
 ChanRoot(c) == CASE c \in {"workflow", "reusable"} -> Root
@@ -145,7 +158,7 @@ ChanRoot(c) == CASE c \in {"workflow", "reusable"} -> Root
                  [] c = "config" -> ConfigRoot
 BaseIdx(c) == IF c = "workflow" THEN WfBases ELSE DOMAIN ChanDocs(c)
 ChanBasesTyped == \A c \in AllChans : \A i \in DOMAIN ChanDocs(c) : Typed(ChanRoot(c), ChanDocs(c)[i])
-CallersTyped == Typed(Root, ActionCaller) /\ Typed(Root, ReusableCaller) /\ Typed(Root, ConfigWorkflow)
+CallersTyped == Typed(Root, ActionCaller) /\ Typed(Root, ReusableCaller) /\ Typed(Root, ConfigWorkflow) /\ Typed(Root, ConfigDirty)
 
 ----------------------------------------------------------------------------
 (* Handling: the design's case analysis *)
@@ -300,13 +313,22 @@ ExprFrags == {<<"${{", " ">> \o x \o <<" ", "}}">> : x \in ExprSeqs(ExprLen)} \c
 \* collection fragments
 SeqFrags(g) == { FQ(g, <<>>), FQ(g, <<FW("x")>>), FQ(g, <<FW("x"), FW("x")>>), FQ(g, <<FQ("none", <<FW("x")>>)>>),
                  FQ(g, <<FM("none", << <<FW("a"), FW("b")>> >>)>>), FQ(g, <<FW("~")>>), FQ(g, <<FW("${{ a.. }}")>>),
-                 FQ(g, <<FS("!!float", <<"nan">>), FS("!!int", <<"x">>), FS("!!bool", <<"">>)>>) }
+                 FQ(g, <<FS("!!float", <<"nan">>), FS("!!int", <<"x">>), FS("!!bool", <<"">>)>>),
+                 FQ(g, <<FW("~"), FQ("none", <<FW("~")>>), FM("none", << <<FW("a"), FW("~")>> >>)>>),
+                 FQ(g, <<FQ("!!null", <<FW("~")>>)>>), FQ(g, <<FM("!!null", << <<FW("a"), FW("~")>> >>)>>) }
 MapFrags(g) == { FM(g, <<>>), FM(g, << <<FW("a"), FW("b")>> >>), FM(g, << <<FW("a"), FW("b")>>, <<FW("a"), FW("c")>> >>),
                  FM(g, << <<FW("a"), FQ("none", <<FW("x")>>)>> >>), FM(g, << <<FW("a"), FM("none", << <<FW("b"), FW("c")>> >>)>> >>),
                  FM(g, << <<FQ("none", <<FW("k")>>), FW("v")>> >>), FM(g, << <<FM("none", << <<FW("k"), FW("w")>> >>), FW("v")>> >>),
                  FM(g, << <<FW("~"), FW("v")>> >>), FM(g, << <<FS("none", <<"">>), FW("v")>> >>), FM(g, << <<FS("!!int", <<"1">>), FW("~")>> >>),
                  FM(g, << <<FW("cron"), FW("TZ=UTC")>> >>), FM(g, << <<FW("run"), FW("${{ a.. }}")>> >>),
-                 FM(g, << <<FW("<<"), FM("none", << <<FW("a"), FW("b")>> >>)>> >>) }
+                 FM(g, << <<FW("<<"), FM("none", << <<FW("a"), FW("b")>> >>)>> >>),
+                 FM(g, << <<FW("a"), FW("~")>> >>), FM(g, << <<FW("required"), FW("~")>> >>), FM(g, << <<FW("a"), FQ("none", <<FW("~")>>)>> >>),
+                 FM(g, << <<FW("a"), FW("~")>>, <<FW("b"), FM("none", << <<FW("c"), FW("~")>> >>)>> >>),
+                 FM(g, << <<FW("a"), FM("!!null", << <<FW("b"), FW("~")>> >>)>> >>),
+                 FM(g, << <<FW("a"), FM("none", << <<FW("b"), FM("!!null", << <<FW("c"), FW("~")>> >>)>> >>)>> >>) }
+\* explicit tags on collections: go-yaml skips UnmarshalYAML for a node tagged !!null and decodes null children into
+\* nil pointers; every core tag is tried on every collection of the decoder channels
+AllCollTags == {"none", "!!null", "!!str", "!!map", "!!seq", "!!int", "!!bool", "!!float", "!!binary", "!!set", "!!omap", "!verif"}
 AliasTargets == << FW("x"), FW("${{ a.. }}"), FQ("none", <<FW("x")>>), FM("none", << <<FW("a"), FW("b")>> >>),
                    FM("none", << <<FW("run"), FW("echo")>> >>), FS("!!float", <<"nan">>) >>
 KeyFrags == { FS("none", <<"">>), FW("~"), FW("<<"), FW("true"), FW("1"), FW("1.5"), FW("${{ a.. }}"), FW("a b"), FW("@@NUL"),
@@ -441,7 +463,8 @@ vars == <<ch, b, path, tc>>
 Export == ToJson([prop |-> "export",
                   docs |-> [workflow |-> Bases, reusable |-> ChanDocs("reusable"), action |-> ChanDocs("action"),
                             config |-> ChanDocs("config")],
-                  callers |-> [action |-> ActionCaller, reusable |-> ReusableCaller, config |-> ConfigWorkflow],
+                  callers |-> [action |-> ActionCaller, reusable |-> ReusableCaller, config |-> ConfigWorkflow,
+                               config_dirty |-> ConfigDirty],
                   allowed |-> [c \in AllChans |-> Allowed(c)], propallowed |-> PropAllowed, limit_ms |-> TimeLimitMs])
 Nav == ToJson([prop |-> "nav"])
 
@@ -474,6 +497,7 @@ TagOf(f) == IF f.k \in {"s", "rep", "sx", "q", "m"} THEN f.tag ELSE "none"
 Vec(mut, label, ops, holes, decos, exp) ==
   [prop |-> "C01", ch |-> ch, b |-> b, path |-> path, site |-> Site, tk |-> HereU.k, dom |-> DomHere,
    mut |-> mut, label |-> label, ops |-> ops, holes |-> holes, decos |-> decos, raw |-> <<>>,
+   multi |-> [proj |-> TRUE, files |-> <<>>],
    exp |-> exp, allowed |-> Allowed(ch)]
 
 \* replacement of the node by a fragment
@@ -491,10 +515,10 @@ EmitScalar == /\ "scalar" \in MutKinds /\ tc = Nav /\ path # <<>>
               /\ \E f \in ScalarFragsAt : tc' = ToJson(ReplaceVec("scalar", f.tag, f))
               /\ UNCHANGED <<ch, b, path>>
 EmitSeq == /\ "seq" \in MutKinds /\ tc = Nav /\ path # <<>>
-           /\ \E g \in {"none", "!!seq", "!!str", "!!map", "!verif"} : \E f \in SeqFrags(g) : tc' = ToJson(ReplaceVec("seq", g, f))
+           /\ \E g \in (IF ch = "workflow" THEN {"none", "!!seq", "!!str", "!!null", "!verif"} ELSE CollTags) : \E f \in SeqFrags(g) : tc' = ToJson(ReplaceVec("seq", g, f))
            /\ UNCHANGED <<ch, b, path>>
 EmitMap == /\ "map" \in MutKinds /\ tc = Nav /\ path # <<>>
-           /\ \E g \in {"none", "!!map", "!!str", "!!seq", "!!set", "!!omap", "!verif"} : \E f \in MapFrags(g) : tc' = ToJson(ReplaceVec("map", g, f))
+           /\ \E g \in (IF ch = "workflow" THEN {"none", "!!map", "!!str", "!!null", "!verif"} ELSE CollTags) : \E f \in MapFrags(g) : tc' = ToJson(ReplaceVec("map", g, f))
            /\ UNCHANGED <<ch, b, path>>
 EmitNest == /\ "nest" \in MutKinds /\ tc = Nav /\ path # <<>>
             /\ \E n \in Depths, kd \in {"q", "m"} : tc' = ToJson(ReplaceVec("nest", kd, FNest(kd, n)))
@@ -555,7 +579,7 @@ FlowOps == IF NeedsFlow THEN <<[op |-> "style", path |-> path, st |-> "flow"]>> 
 HereKind == IF Here.k = "s" THEN (IF IsNull(Here) THEN "null" ELSE "s") ELSE Here.k
 EmitTagged ==
   /\ "tagged" \in MutKinds /\ tc = Nav /\ path # <<>>
-  /\ \E g \in Tags \cup {"!!seq", "!!map"} :
+  /\ \E g \in (IF ch # "workflow" /\ Here.k \in {"m", "q"} THEN CollTags \ {"none"} ELSE Tags \cup {"!!seq", "!!map"}) :
        tc' = ToJson(Vec("tagged", g, FlowOps, <<>>, <<[path |-> path, pre |-> g]>>,
                         IF ch = "workflow" /\ HereKind = "s" THEN HandlingW(HereU, "s", g) ELSE "any"))
   /\ UNCHANGED <<ch, b, path>>
@@ -596,6 +620,46 @@ EmitKey ==
                         IF ch = "workflow" /\ Closed(pt) THEN "diag" ELSE "any"))
   /\ UNCHANGED <<ch, b, path>>
 
+\* cycles through anchors: YAML lets an alias name an ENCLOSING node (its anchor exists from the node's start), so
+\* a mapping can merge itself, two nested anchors can merge each other, and any node can point at an ancestor
+CycOps(extra) == (IF path # <<>> /\ Parent.k = "q" THEN <<[op |-> "style", path |-> path, st |-> "flow"]>> ELSE <<>>) \o extra
+InsHere(at, key, h) == [op |-> "ins", path |-> path, at |-> at, key |-> key, case |-> "", val |-> [k |-> "s", v |-> h, st |-> ""]]
+CycExp == IF ch = "workflow" THEN "diag" ELSE "any"
+EmitCycle ==
+  /\ "cycle" \in MutKinds /\ tc = Nav /\ Here.k = "m"
+  /\ LET n == NKids(Here)
+         me == <<[path |-> path, pre |-> "&c"]>> IN
+     \/ \E at \in {1, n + 1} : \E f \in { FAlias("c", "m"), FQ("none", <<FAlias("c", "m"), FAlias("c", "m")>>),
+                                          FM("none", << <<FW("<<"), FAlias("c", "m")>> >>) } :
+          tc' = ToJson(Vec("cycle", "self-merge", CycOps(<<InsHere(at, "<<", H1)>>), <<[id |-> H1, f |-> f]>>, me, CycExp))
+     \/ tc' = ToJson(Vec("cycle", "mutual-merge", CycOps(<<InsHere(1, "x-cyc", H2), InsHere(n + 1, "<<", H1)>>),
+                         <<[id |-> H1, f |-> FAlias("d", "m")],
+                           [id |-> H2, f |-> Anch(FM("none", << <<FW("<<"), FAlias("c", "m")>>, <<FW("k"), FW("v")>> >>), "d")]>>, me, CycExp))
+     \/ \E at \in {1, n + 1} :
+          tc' = ToJson(Vec("cycle", "self-value", CycOps(<<InsHere(at, "x-cyc", H1)>>), <<[id |-> H1, f |-> FAlias("c", "m")]>>, me, CycExp))
+     \/ tc' = ToJson(Vec("cycle", "self-key", CycOps(<<InsHere(n + 1, K1, H1)>>),
+                         <<[id |-> K1, f |-> FAlias("c", "m")], [id |-> H1, f |-> FW("v")]>>, me, CycExp))
+     \/ /\ path # <<>>
+        /\ \E anc \in {<<>>, Front(path)} : \E key \in {"<<", "x-cyc"} :
+             /\ anc = <<>> \/ (Len(anc) >= 1 /\ NodeAt(Doc, Front(anc)).k = "m")
+             /\ tc' = ToJson(Vec("cycle", "ancestor", CycOps(<<InsHere(1, key, H1)>>), <<[id |-> H1, f |-> FAlias("c", "m")]>>,
+                                 <<[path |-> anc, pre |-> "&c"]>>, CycExp))
+  /\ UNCHANGED <<ch, b, path>>
+
+\* several files in one run, inside and OUTSIDE a project (no .git / .github/workflows above them: the caches of
+\* local actions and local reusable workflows are the null caches then)
+MultiUses == UNION {NearMiss(x) : x \in CallUsesSeeds} \cup {<<"./foo.yml", "@", "main">>, <<"./", "act">>, <<"./">>, <<"./", "missing">>}
+JobCall(u) == <<"on: push\njobs:\n  c:\n    uses: '">> \o u \o <<"'\n">>
+StepCall(u) == <<"on: push\njobs:\n  j:\n    runs-on: ubuntu-latest\n    steps:\n      - uses: '">> \o u \o <<"'\n        with:\n          a: b\n">>
+PlainWf == <<"on:\n  workflow_call:\n    inputs:\n      a:\n        type: string\njobs:\n  j:\n    runs-on: ubuntu-latest\n    steps:\n      - run: echo\n">>
+EmitMulti ==
+  /\ "multi" \in MutKinds /\ tc = Nav /\ path = <<>> /\ ch = "workflow"
+  /\ \E u \in MultiUses, proj \in BOOLEAN, shape \in {"job", "step"}, nf \in {1, 2, 3} :
+       LET a == IF shape = "job" THEN JobCall(u) ELSE StepCall(u)
+           fs == <<[name |-> "a.yml", raw |-> a], [name |-> "foo.yml", raw |-> PlainWf], [name |-> "c.yml", raw |-> a]>> IN
+       tc' = ToJson([Vec("multi", shape, <<>>, <<>>, <<>>, "any") EXCEPT !.multi = [proj |-> proj, files |-> SubSeq(fs, 1, nf)]])
+  /\ UNCHANGED <<ch, b, path>>
+
 \* whole documents that are not mappings
 EmitRoot ==
   /\ "root" \in MutKinds /\ tc = Nav /\ path = <<>>
@@ -604,7 +668,7 @@ EmitRoot ==
   /\ UNCHANGED <<ch, b, path>>
 
 Next == Start \/ Descend \/ EmitRecog \/ EmitScalar \/ EmitSeq \/ EmitMap \/ EmitNest \/ EmitLong \/ EmitExpr \/ EmitAlias
-        \/ EmitTagged \/ EmitAnchored \/ EmitMerge \/ EmitKey \/ EmitRoot
+        \/ EmitTagged \/ EmitAnchored \/ EmitMerge \/ EmitKey \/ EmitRoot \/ EmitCycle \/ EmitMulti
 Spec == Init /\ [][Next]_vars
 
 NodesTyped == tc = Nav => HereT.k # "none"
